@@ -1,13 +1,19 @@
-import PsiProofs.Helper.C03_Run
+import PsiProofs.Helper.C03_Runs
 import PsiProofs.C04
 /-!
 C03 — each stimulus gets its requested trials in the policy order, then silence.
 
-Proved here: the FIFO order/counts/no-exception theorems, and the policy-independent terminal
-theorems (silence, requested totals unchanged, stays empty). Exact / at-least counts for every
-policy follow from `conservation` / `final_counts` (PsiProofs/C04). The order theorems of the
-other policies (round-robin, blocks, groups) are NOT proved; they are covered by the
-correspondence run and the direct oracle only (see notes/C02.md).
+Part 1 (any state satisfying `FifoInv`): the FIFO order/counts/no-exception theorems, and the
+policy-independent terminal theorems (silence, requested totals unchanged, stays empty).
+
+Part 2 (every policy, from a `Loaded` queue = constructor + ≥ 1 `append`s, any number of stimuli,
+trial counts ≥ 1, waveform lengths ≥ 1, any chunking `ns` of positive requests, every oracle):
+`no_exception`, `empty_done`, `done_no_trials`, `exact_counts`, and per policy the order of the
+`added` log (`keyLog`): FIFO `fifo_first_unsatisfied`, interleaved `interleaved_round_robin` /
+`interleaved_nokeep_order`, random `random_pick`, blocked random `blocked_random_blocks`, grouped /
+blocked FIFO `grouped_order`, `grouped_groups_sequential`, `blocked_fifo_round_robin`.
+All are statements about `runTicks (ns.sum)` of the per-sample spec, transported to every chunking by
+C02 (`popAll_ticks`). Exact / at-least counts after pauses are `conservation` / `final_counts` (C04).
 -/
 namespace Psi.Queue
 
@@ -114,6 +120,305 @@ theorem requested_unchanged {n : Nat} {s s' : QState} {out : List Cell} (hw : WF
   unfold countRequested
   rw [key n s s' out h]
 
+/-! ## Part 2 — every policy, from a loaded queue -/
+
+/-- **`Loaded` is what the constructor and ≥ 1 `append`s build**, for every policy, option,
+group size ≥ 1 (BlockedFIFO: `auto`, its group size counts the appends) and oracle streams, any
+number of stimuli with ≥ 1 sample, ≥ 1 trial and a non-empty cycle of delays ≥ 0. -/
+theorem loaded_by_append (kind : Kind) (keep : Bool) (gsize : Nat) (auto : Bool) (draws : List Nat)
+    (perms : List (List Nat)) (es : List Entry) (hne : es ≠ []) (hes : ∀ e ∈ es, GoodEntry e)
+    (hg : kind = .grouped → auto = false → 1 ≤ gsize) :
+    Loaded (loadAll (newQueue kind keep gsize auto draws perms) es) :=
+  Loaded_loadAll kind keep gsize auto draws perms es hne hes hg
+
+section Loaded
+variable {ns : List Nat} {s s' : QState} {out : List Cell}
+
+/-- **(e) No exception, every policy.** A queue of any policy/option with ≥ 1 stimuli (trial counts
+≥ 1, waveforms of ≥ 1 sample, delays ≥ 0, group size ≥ 1, oracle streams long enough) answers every
+sequence of positive requests: `pop_buffer` never raises, never hangs in `Interleaved.next_key`, and
+the loop fuel `3n+3` suffices. (Needed for termination: waveform length ≥ 1 — see notes for the
+behaviour of the real code on empty waveforms.) -/
+theorem no_exception (hl : Loaded s) (hpos : ∀ n ∈ ns, 0 < n) (hne : ns ≠ []) (ho : OracleOK ns.sum s) :
+    ∃ out s', popAll ns s = .ok (out, s') ∧ WF s' := by
+  rw [popAll_ticks hl.wf hpos hne]
+  cases hk : s.kind with
+  | fifo => obtain ⟨cs, s', h, hw, _⟩ := run_fifo ns.sum hl hk; exact ⟨cs, s', h, hw⟩
+  | interleaved =>
+    cases hkeep : s.keep with
+    | true => obtain ⟨cs, s', h, hw, _⟩ := run_rr ns.sum hl hk hkeep; exact ⟨cs, s', h, hw⟩
+    | false => obtain ⟨cs, s', h, hw, _⟩ := run_skip ns.sum hl hk hkeep; exact ⟨cs, s', h, hw⟩
+  | random => obtain ⟨cs, s', h, hw, _⟩ := run_random ns.sum hl hk (ho.draws hk); exact ⟨cs, s', h, hw⟩
+  | blockedRandom =>
+    obtain ⟨cs, s', h, hw, _⟩ := run_blocked ns.sum hl hk (ho.perms hk).1 (ho.perms hk).2
+    exact ⟨cs, s', h, hw⟩
+  | grouped => obtain ⟨cs, s', h, hw, _⟩ := run_grouped ns.sum hl hk; exact ⟨cs, s', h, hw⟩
+
+/-- **Reports empty ⇒ the policy is done (every policy).** `is_empty()` is only ever true when
+`next_key` has nothing left (`Done`: ordering exhausted, resp. `_complete` set). -/
+theorem empty_done (hl : Loaded s) (hpos : ∀ n ∈ ns, 0 < n) (hne : ns ≠ [])
+    (h : popAll ns s = .ok (out, s')) (hE : s'.empty = true) : Done s' := by
+  rw [popAll_ticks hl.wf hpos hne] at h
+  exact runTicks_emptyDone ns.sum (fun h0 => by rw [hl.empty] at h0; simp at h0) h hE
+
+/-- **Done ⇒ no trials remaining, all requests met (every policy).** Once the policy is done,
+every remaining-trials counter is ≤ 0, `count_trials()` is 0, and every stimulus was presented at
+least its requested number of times. -/
+theorem done_no_trials (hl : Loaded s) (hpos : ∀ n ∈ ns, 0 < n) (hne : ns ≠ []) (ho : OracleOK ns.sum s)
+    (h : popAll ns s = .ok (out, s')) (hd : Done s') :
+    countTrials s' = 0 ∧ (∀ k, k < s.data.length → trialsOf s' k ≤ 0) ∧
+    ∀ k, k < s.data.length → trialsOf s k ≤ (((keyLog s').count k : Nat) : Int) := by
+  rw [popAll_ticks hl.wf hpos hne] at h
+  have key : ∀ (hb : Base s.data.length (reqAt s) (view s'))
+      (hle : ∀ k, k < s.data.length → trv s'.data k ≤ 0),
+      countTrials s' = 0 ∧ (∀ k, k < s.data.length → trialsOf s' k ≤ 0) ∧
+      ∀ k, k < s.data.length → trialsOf s k ≤ (((keyLog s').count k : Nat) : Int) := by
+    intro hb hle
+    have hlen : s'.data.length = s.data.length := hb.len
+    refine ⟨countTrials_zero (by rw [hlen]; exact hle), hle, ?_⟩
+    intro k hk
+    have h1 := hle k hk
+    have h2 := hb.led k hk
+    simp only [view] at h2
+    rw [h2] at h1
+    simp only [keyLog, reqAt] at h1 ⊢
+    omega
+  cases hk : s.kind with
+  | fifo =>
+    obtain ⟨cs, s2, h2, _, hi⟩ := run_fifo ns.sum hl hk
+    rw [h2] at h; simp only [Except.ok.injEq, Prod.mk.injEq] at h; obtain ⟨_, rfl⟩ := h
+    have hk2 : s2.kind = .fifo := hi.kind
+    have ho2 : s2.ordering = [] := by simpa [Done, hk2] using hd
+    refine key hi.core.base (fun k hk' => ?_)
+    have := (hi.core.exact.2 ho2) k hk'
+    have hled := hi.core.base.led k hk'
+    simp only [view] at hled this
+    rw [hled]; omega
+  | interleaved =>
+    cases hkeep : s.keep with
+    | true =>
+      obtain ⟨cs, s2, h2, _, hi⟩ := run_rr ns.sum hl hk hkeep
+      rw [h2] at h; simp only [Except.ok.injEq, Prod.mk.injEq] at h; obtain ⟨_, rfl⟩ := h
+      have hk2 : s2.kind = .interleaved := hi.kind
+      exact key hi.base (hi.closed (show s2.complete = true by simpa [Done, hk2] using hd))
+    | false =>
+      obtain ⟨cs, s2, h2, _, hi⟩ := run_skip ns.sum hl hk hkeep
+      rw [h2] at h; simp only [Except.ok.injEq, Prod.mk.injEq] at h; obtain ⟨_, rfl⟩ := h
+      have hk2 : s2.kind = .interleaved := hi.kind
+      exact key hi.base (hi.closed (show s2.complete = true by simpa [Done, hk2] using hd))
+  | random =>
+    obtain ⟨cs, s2, h2, _, hi⟩ := run_random ns.sum hl hk (ho.draws hk)
+    rw [h2] at h; simp only [Except.ok.injEq, Prod.mk.injEq] at h; obtain ⟨_, rfl⟩ := h
+    have hk2 : s2.kind = .random := hi.kind
+    have ho2 : s2.ordering = [] := by simpa [Done, hk2] using hd
+    refine key hi.core.base (fun k hk' => ?_)
+    have := (hi.core.exact.2 ho2) k hk'
+    have hled := hi.core.base.led k hk'
+    simp only [view] at hled this
+    rw [hled]; omega
+  | blockedRandom =>
+    obtain ⟨cs, s2, h2, _, hi⟩ := run_blocked ns.sum hl hk (ho.perms hk).1 (ho.perms hk).2
+    rw [h2] at h; simp only [Except.ok.injEq, Prod.mk.injEq] at h; obtain ⟨_, rfl⟩ := h
+    have hk2 : s2.kind = .blockedRandom := hi.kind
+    exact key hi.base (hi.closed (show s2.complete = true by simpa [Done, hk2] using hd))
+  | grouped =>
+    obtain ⟨cs, s2, h2, _, hi⟩ := run_grouped ns.sum hl hk
+    rw [h2] at h; simp only [Except.ok.injEq, Prod.mk.injEq] at h; obtain ⟨_, rfl⟩ := h
+    have hk2 : s2.kind = .grouped := hi.kind
+    have ho2 : s2.ordering = [] := by simpa [Done, hk2] using hd
+    obtain ⟨c, hord, hcompl, _, _, _⟩ := hi.grp
+    refine key hi.base (fun k hk' => hcompl k ?_ hk')
+    have hord' : s2.ordering = List.range' (s.gsize * c) (s.data.length - s.gsize * c) := hord
+    rw [ho2] at hord'
+    have : s.data.length - s.gsize * c = 0 := by
+      have := congrArg List.length hord'; simpa using this.symm
+    omega
+
+/-- **Exact counts (FIFO, random, interleaved without completed waveforms).** No stimulus is ever
+presented more often than requested, and once the policy is done each was presented exactly its
+requested number of times — for every oracle stream of random choices. -/
+theorem exact_counts (hl : Loaded s) (hpos : ∀ n ∈ ns, 0 < n) (hne : ns ≠ []) (ho : OracleOK ns.sum s)
+    (hk : s.kind = .fifo ∨ s.kind = .random ∨ (s.kind = .interleaved ∧ s.keep = false))
+    (h : popAll ns s = .ok (out, s')) :
+    (∀ k, k < s.data.length → (((keyLog s').count k : Nat) : Int) ≤ trialsOf s k) ∧
+    (Done s' → ∀ k, k < s.data.length → (((keyLog s').count k : Nat) : Int) = trialsOf s k) := by
+  rw [popAll_ticks hl.wf hpos hne] at h
+  rcases hk with hk | hk | ⟨hk, hkeep⟩
+  · obtain ⟨cs, s2, h2, _, hi⟩ := run_fifo ns.sum hl hk
+    rw [h2] at h; simp only [Except.ok.injEq, Prod.mk.injEq] at h; obtain ⟨_, rfl⟩ := h
+    have hk2 : s2.kind = .fifo := hi.kind
+    exact ⟨hi.core.exact.1, fun hd => hi.core.exact.2 (show s2.ordering = [] by simpa [Done, hk2] using hd)⟩
+  · obtain ⟨cs, s2, h2, _, hi⟩ := run_random ns.sum hl hk (ho.draws hk)
+    rw [h2] at h; simp only [Except.ok.injEq, Prod.mk.injEq] at h; obtain ⟨_, rfl⟩ := h
+    have hk2 : s2.kind = .random := hi.kind
+    exact ⟨hi.core.exact.1, fun hd => hi.core.exact.2 (show s2.ordering = [] by simpa [Done, hk2] using hd)⟩
+  · obtain ⟨cs, s2, h2, _, hi⟩ := run_skip ns.sum hl hk hkeep
+    rw [h2] at h; simp only [Except.ok.injEq, Prod.mk.injEq] at h; obtain ⟨_, rfl⟩ := h
+    have hk2 : s2.kind = .interleaved := hi.kind
+    refine ⟨?_, ?_⟩
+    · intro k hk'
+      have h1 := hi.nonneg k hk'
+      rw [hi.base.led k hk'] at h1
+      simp only [view, reqAt] at h1; simp only [keyLog]; omega
+    · intro hd k hk'
+      have h1 := hi.nonneg k hk'
+      have h3 := hi.closed (show s2.complete = true by simpa [Done, hk2] using hd) k hk'
+      rw [hi.base.led k hk'] at h1 h3
+      simp only [view, reqAt] at h1 h3; simp only [keyLog]; omega
+
+/-- **FIFO order.** Every trial is the first (in insertion order) stimulus not yet satisfied. -/
+theorem fifo_first_unsatisfied (hl : Loaded s) (hk : s.kind = .fifo) (hpos : ∀ n ∈ ns, 0 < n)
+    (hne : ns ≠ []) (h : popAll ns s = .ok (out, s')) (j : Nat) (hj : j < (keyLog s').length) :
+    (unsatList s.data.length (reqAt s) ((keyLog s').take j)).head? = some (keyLog s')[j] := by
+  rw [popAll_ticks hl.wf hpos hne] at h
+  obtain ⟨cs, s2, h2, _, hi⟩ := run_fifo ns.sum hl hk
+  rw [h2] at h; simp only [Except.ok.injEq, Prod.mk.injEq] at h; obtain ⟨_, rfl⟩ := h
+  exact hi.pick j hj
+
+/-- **(a) Interleaved, completed waveforms kept: strict round-robin, stops at the first moment.**
+`log[j] = j % n` (= `ordering[j % n]`, keys are insertion indices); no trial is ever started when
+all stimuli were already satisfied (so the log has the least length with everything satisfied). -/
+theorem interleaved_round_robin (hl : Loaded s) (hk : s.kind = .interleaved) (hkeep : s.keep = true)
+    (hpos : ∀ n ∈ ns, 0 < n) (hne : ns ≠ []) (h : popAll ns s = .ok (out, s')) :
+    (∀ j (hj : j < (keyLog s').length),
+      (keyLog s')[j] = j % s.data.length ∧ s.ordering[j % s.data.length]? = some (keyLog s')[j]) ∧
+    (∀ m, m < (keyLog s').length →
+      ∃ k, k < s.data.length ∧ ((((keyLog s').take m).count k : Nat) : Int) < trialsOf s k) := by
+  rw [popAll_ticks hl.wf hpos hne] at h
+  obtain ⟨cs, s2, h2, _, hi⟩ := run_rr ns.sum hl hk hkeep
+  rw [h2] at h; simp only [Except.ok.injEq, Prod.mk.injEq] at h; obtain ⟨_, rfl⟩ := h
+  refine ⟨fun j hj => ⟨hi.rr j hj, ?_⟩, hi.first⟩
+  rw [hl.ordering, List.getElem?_range (Nat.mod_lt _ hl.pos)]
+  exact congrArg some (hi.rr j hj).symm
+
+/-- **(a) Interleaved, completed waveforms dropped: round-robin that skips satisfied stimuli.**
+Every trial is the next unsatisfied stimulus after the previous one in cyclic insertion order
+(`NextUnsat`: `d` places further, unsatisfied itself, everything passed over is satisfied). In
+particular nothing is presented once all are satisfied. -/
+theorem interleaved_nokeep_order (hl : Loaded s) (hk : s.kind = .interleaved) (hkeep : s.keep = false)
+    (hpos : ∀ n ∈ ns, 0 < n) (hne : ns ≠ []) (h : popAll ns s = .ok (out, s'))
+    (j : Nat) (hj : j < (keyLog s').length) :
+    NextUnsat s.data.length (reqAt s) (lastOr ((keyLog s').take j)) ((keyLog s').take j) (keyLog s')[j] := by
+  rw [popAll_ticks hl.wf hpos hne] at h
+  obtain ⟨cs, s2, h2, _, hi⟩ := run_skip ns.sum hl hk hkeep
+  rw [h2] at h; simp only [Except.ok.injEq, Prod.mk.injEq] at h; obtain ⟨_, rfl⟩ := h
+  exact hi.order j hj
+
+/-- **(b) Random: every trial is the oracle's pick among the unsatisfied stimuli.** Trial `j` is
+entry `draws[j] % len` of the list of stimuli (insertion order) presented fewer times than requested. -/
+theorem random_pick (hl : Loaded s) (hk : s.kind = .random) (hpos : ∀ n ∈ ns, 0 < n) (hne : ns ≠ [])
+    (ho : OracleOK ns.sum s) (h : popAll ns s = .ok (out, s')) (j : Nat) (hj : j < (keyLog s').length) :
+    ∃ d, s.draws[j]? = some d ∧
+      (unsatList s.data.length (reqAt s) ((keyLog s').take j))[
+        d % (unsatList s.data.length (reqAt s) ((keyLog s').take j)).length]? = some (keyLog s')[j] := by
+  rw [popAll_ticks hl.wf hpos hne] at h
+  obtain ⟨cs, s2, h2, _, hi⟩ := run_random ns.sum hl hk (ho.draws hk)
+  rw [h2] at h; simp only [Except.ok.injEq, Prod.mk.injEq] at h; obtain ⟨_, rfl⟩ := h
+  exact hi.pick j hj
+
+/-- **(c) Blocked random: successive permutations, cut at completion.** The log is a prefix of the
+concatenation of the oracle's shuffles (each a permutation of all stimuli, consumed from its end as
+`list.pop()` does): `b` whole blocks minus a remainder shorter than a block; and no trial is started
+once all stimuli were satisfied. -/
+theorem blocked_random_blocks (hl : Loaded s) (hk : s.kind = .blockedRandom) (hpos : ∀ n ∈ ns, 0 < n)
+    (hne : ns ≠ []) (ho : OracleOK ns.sum s) (h : popAll ns s = .ok (out, s')) :
+    keyLog s' <+: s.perms.flatMap List.reverse ∧
+    (∃ b rest, b ≤ s.perms.length ∧ rest.length < s.data.length ∧
+      keyLog s' ++ rest = (s.perms.take b).flatMap List.reverse) ∧
+    (∀ p ∈ s.perms, p.reverse.Perm (List.range s.data.length)) ∧
+    (∀ m, m < (keyLog s').length →
+      ∃ k, k < s.data.length ∧ ((((keyLog s').take m).count k : Nat) : Int) < trialsOf s k) := by
+  rw [popAll_ticks hl.wf hpos hne] at h
+  obtain ⟨cs, s2, h2, _, hi⟩ := run_blocked ns.sum hl hk (ho.perms hk).1 (ho.perms hk).2
+  rw [h2] at h; simp only [Except.ok.injEq, Prod.mk.injEq] at h; obtain ⟨_, rfl⟩ := h
+  obtain ⟨b, hb, _, hcat⟩ := hi.blocks
+  have hcat' : keyLog s2 ++ s2.block.reverse = (s.perms.take b).flatMap List.reverse := hcat
+  refine ⟨⟨s2.block.reverse ++ (s.perms.drop b).flatMap List.reverse, ?_⟩,
+    ⟨b, s2.block.reverse, hb, by rw [List.length_reverse]; exact hi.blockLt.1, hcat'⟩,
+    fun p hp => (List.reverse_perm p).trans ((ho.perms hk).2 p hp), hi.first⟩
+  rw [← List.append_assoc, hcat', ← List.flatMap_append, List.take_append_drop]
+
+/-- **(d) Grouped / blocked FIFO: every trial is a legitimate grouped pick** (`GroupPick`): all
+earlier groups are satisfied (every group finishes before the next starts), the trial's own group
+is not (the group stops at the first moment it is satisfied), and the trial sits one place after
+the previous one, cyclically within its group (round-robin inside the group; the last group may
+be smaller than `group_size`). -/
+theorem grouped_order (hl : Loaded s) (hk : s.kind = .grouped) (hpos : ∀ n ∈ ns, 0 < n) (hne : ns ≠ [])
+    (h : popAll ns s = .ok (out, s')) (j : Nat) (hj : j < (keyLog s').length) :
+    (keyLog s')[j] < s.data.length ∧
+    GroupPick s.data.length (reqAt s) s.gsize ((keyLog s').take j) (keyLog s')[j] := by
+  rw [popAll_ticks hl.wf hpos hne] at h
+  obtain ⟨cs, s2, h2, _, hi⟩ := run_grouped ns.sum hl hk
+  rw [h2] at h; simp only [Except.ok.injEq, Prod.mk.injEq] at h; obtain ⟨_, rfl⟩ := h
+  exact ⟨hi.base.keysLt _ (List.getElem_mem hj), hi.order j hj⟩
+
+/-- **(d) Groups are sequential.** The group index `key / group_size` never decreases along the log. -/
+theorem grouped_groups_sequential (hl : Loaded s) (hk : s.kind = .grouped) (hpos : ∀ n ∈ ns, 0 < n)
+    (hne : ns ≠ []) (h : popAll ns s = .ok (out, s')) (i j : Nat) (hij : i ≤ j)
+    (hj : j < (keyLog s').length) :
+    (keyLog s')[i]'(by omega) / s.gsize ≤ (keyLog s')[j] / s.gsize := by
+  obtain ⟨_, hi1, _, _⟩ := grouped_order hl hk hpos hne h i (by omega)
+  obtain ⟨_, _, ⟨k', h1, h2, h3, h4⟩, _⟩ := grouped_order hl hk hpos hne h j hj
+  apply Classical.byContradiction
+  intro hlt
+  have hlt' : (keyLog s')[j] / s.gsize + 1 ≤ (keyLog s')[i]'(by omega) / s.gsize := by omega
+  have hmul := Nat.mul_le_mul_left s.gsize hlt'
+  rw [Nat.mul_succ] at hmul
+  have h5 := hi1 k' (by omega) h3
+  have hsub : ((keyLog s').take i).Sublist ((keyLog s').take j) := by
+    have : (keyLog s').take i = ((keyLog s').take j).take i := by
+      rw [List.take_take, Nat.min_eq_left hij]
+    rw [this]; exact List.take_sublist _ _
+  have := hsub.count_le k'
+  simp only [reqAt] at h4 h5
+  omega
+
+/-- **(d) Blocked FIFO (one group holding all stimuli): strict round-robin, stops at the first
+moment.** With `group_size ≥ n` — `BlockedFIFOSignalQueue` sets it to `n` — `log[j] = j % n`, and no
+trial is started once all stimuli were satisfied. -/
+theorem blocked_fifo_round_robin (hl : Loaded s) (hk : s.kind = .grouped) (hg : s.data.length ≤ s.gsize)
+    (hpos : ∀ n ∈ ns, 0 < n) (hne : ns ≠ []) (h : popAll ns s = .ok (out, s')) :
+    (∀ j (hj : j < (keyLog s').length), (keyLog s')[j] = j % s.data.length) ∧
+    (∀ m, m < (keyLog s').length →
+      ∃ k, k < s.data.length ∧ ((((keyLog s').take m).count k : Nat) : Int) < trialsOf s k) := by
+  have hn := hl.pos
+  have hdiv : ∀ j (hj : j < (keyLog s').length), (keyLog s')[j] / s.gsize = 0 ∧
+      (keyLog s')[j] % s.gsize = (keyLog s')[j] := by
+    intro j hj
+    have := (grouped_order hl hk hpos hne h j hj).1
+    exact ⟨Nat.div_eq_of_lt (by omega), Nat.mod_eq_of_lt (by omega)⟩
+  refine ⟨?_, ?_⟩
+  · intro j
+    induction j with
+    | zero =>
+      intro hj
+      obtain ⟨_, _, _, h4⟩ := grouped_order hl hk hpos hne h 0 hj
+      rw [(hdiv 0 hj).1, (hdiv 0 hj).2] at h4
+      simp only [List.take_zero, lastMod, List.getLast?_nil, Nat.mul_zero, Nat.sub_zero,
+        Nat.min_eq_right hg] at h4
+      have : ((-1 : Int) + 1) % (s.data.length : Int) = 0 := by simp
+      rw [this] at h4
+      simp only [Nat.zero_mod]
+      omega
+    | succ j ih =>
+      intro hj
+      have hjl : j < (keyLog s').length := by omega
+      obtain ⟨_, _, _, h4⟩ := grouped_order hl hk hpos hne h (j + 1) hj
+      rw [(hdiv (j + 1) hj).1, (hdiv (j + 1) hj).2, List.take_add_one,
+        List.getElem?_eq_getElem hjl] at h4
+      simp only [Option.toList_some, lastMod_snoc, Nat.mul_zero, Nat.sub_zero, Nat.min_eq_right hg] at h4
+      rw [(hdiv j hjl).2, ih hjl] at h4
+      have e : (((j % s.data.length : Nat) : Int) + 1) % (s.data.length : Int) =
+          (((j + 1) % s.data.length : Nat) : Int) := by
+        rw [← Nat.mod_add_mod]; push_cast; rfl
+      rw [e] at h4
+      exact Int.ofNat.inj h4
+  · intro m hm
+    obtain ⟨_, _, ⟨k', _, _, h3, h4⟩, _⟩ := grouped_order hl hk hpos hne h m hm
+    exact ⟨k', h3, h4⟩
+
+end Loaded
+
 /-! ### Non-vacuity -/
 
 def demo3 : QState :=
@@ -145,5 +450,71 @@ example : WF demo3 ∧ FifoInv demo3 := by
 
 example : (popBuffer 40 demo3).toOption.map (fun r => (r.2.added.map (·.key), r.2.ordering, r.2.empty)) =
     some ([0, 0, 1, 1, 1], [], true) := by decide +kernel
+
+/-! Part 2: three stimuli (array of 3 samples ×2, generator of 2 samples ×3 with delays 0/2, array
+of 1 sample ×1) loaded by `append` into every policy; the hypotheses `Loaded` / `OracleOK` /
+`popAll … = .ok …` / `Done` of the theorems above hold for them, and the logs are non-trivial. -/
+
+def demoE1 : Entry := ⟨3, false, 2, 2, [1], 0, 3⟩
+def demoE2 : Entry := ⟨2, true, 3, 3, [0, 2], 0, 2⟩
+def demoE3 : Entry := ⟨1, false, 1, 1, [0], 0, 1⟩
+
+theorem demo_good : ∀ e ∈ [demoE1, demoE2, demoE3], GoodEntry e := by
+  intro e he
+  simp only [List.mem_cons, List.not_mem_nil, or_false] at he
+  rcases he with rfl | rfl | rfl <;> exact ⟨by decide, by decide, by decide, by decide⟩
+
+def demoPerms : List (List Nat) :=
+  (List.range 40).map (fun i => if i % 2 = 0 then [2, 0, 1] else [0, 2, 1])
+
+def demoQ (kind : Kind) (keep : Bool) (gsize : Nat) (auto : Bool) : QState :=
+  loadAll (newQueue kind keep gsize auto (List.range 40) demoPerms) [demoE1, demoE2, demoE3]
+
+/-- every policy / option, group sizes 1, 2 (does not divide 3), 4 (> n), BlockedFIFO (`auto`) -/
+example (kind : Kind) (keep : Bool) (gsize : Nat) (auto : Bool) (hg : 1 ≤ gsize) :
+    Loaded (demoQ kind keep gsize auto) :=
+  loaded_by_append kind keep gsize auto _ _ _ (by simp) demo_good (fun _ _ => hg)
+
+example (kind : Kind) (keep : Bool) (gsize : Nat) (auto : Bool) :
+    OracleOK [7, 13, 20].sum (demoQ kind keep gsize auto) := by
+  have hd : (demoQ kind keep gsize auto).draws = List.range 40 := by
+    simp [demoQ, loadAll_oracle, newQueue]
+  have hpm : (demoQ kind keep gsize auto).perms = demoPerms := by
+    simp [demoQ, loadAll_oracle, newQueue]
+  refine ⟨fun _ => by rw [hd]; decide, fun _ => ⟨by rw [hpm]; decide, ?_⟩⟩
+  intro p hp
+  have : p = [2, 0, 1] ∨ p = [0, 2, 1] := by
+    have hp' : p ∈ demoPerms := by rw [← hpm]; exact hp
+    simp only [demoPerms, List.mem_map] at hp'
+    obtain ⟨i, _, rfl⟩ := hp'
+    split <;> simp
+  have hlen : (demoQ kind keep gsize auto).data.length = 3 := by
+    simp [demoQ, loadAll_data, newQueue]
+  rw [hlen]
+  rcases this with rfl | rfl <;> decide
+
+example : (demoQ .grouped false 0 true).data.length ≤ (demoQ .grouped false 0 true).gsize := by decide
+
+example : (popAll [7, 13, 20] (demoQ .interleaved true 0 false)).toOption.map
+    (fun r => (keyLog r.2, r.2.empty, r.2.complete)) = some ([0, 1, 2, 0, 1, 2, 0, 1], true, true) := by
+  decide +kernel
+example : (popAll [7, 13, 20] (demoQ .interleaved false 0 false)).toOption.map
+    (fun r => (keyLog r.2, r.2.empty, r.2.complete)) = some ([0, 1, 2, 0, 1, 1], true, true) := by
+  decide +kernel
+example : (popAll [7, 13, 20] (demoQ .random false 0 false)).toOption.map
+    (fun r => (keyLog r.2, r.2.empty, r.2.ordering)) = some ([0, 1, 2, 1, 0, 1], true, []) := by
+  decide +kernel
+example : (popAll [7, 13, 20] (demoQ .blockedRandom false 0 false)).toOption.map
+    (fun r => (keyLog r.2, r.2.empty, r.2.complete)) = some ([1, 0, 2, 1, 2, 0, 1], true, true) := by
+  decide +kernel
+example : (popAll [7, 13, 20] (demoQ .grouped false 2 false)).toOption.map
+    (fun r => (keyLog r.2, r.2.empty, r.2.ordering)) = some ([0, 1, 0, 1, 0, 1, 2], true, []) := by
+  decide +kernel
+example : (popAll [7, 13, 20] (demoQ .grouped false 0 true)).toOption.map
+    (fun r => (keyLog r.2, r.2.empty, r.2.ordering)) = some ([0, 1, 2, 0, 1, 2, 0, 1], true, []) := by
+  decide +kernel
+example : (popAll [7, 13, 20] (demoQ .fifo false 0 false)).toOption.map
+    (fun r => (keyLog r.2, r.2.empty, r.2.ordering)) = some ([0, 0, 1, 1, 1, 2], true, []) := by
+  decide +kernel
 
 end Psi.Queue
